@@ -12,6 +12,16 @@ def _t(run, name):
 def C13(run):
     q = run.tier == "quick"
     run.model_check("MCSegments", "MCSegments_quick.cfg" if q else "MCSegments_thorough.cfg")
+    if not q:
+        # symbolic leg (Apalache): the per-segment tiling facts for symbolic initial block <= 1e5, end block <= 2e5 and segment
+        # index, per segment size; TLC (MCSegApa) ties the integer formulation to SegRange of Segments.tla; a wrong fact must be refuted
+        res = run.tlc("MCSegApa", "MCSegApa.cfg", workers=1, timeout=300)
+        if not res["completed"]:
+            raise vlib.Infra("MCSegApa: the Apalache formulation differs from Segments.tla:\n" + res["out"][-1500:])
+        from concurrent.futures import ThreadPoolExecutor
+        with ThreadPoolExecutor(max_workers=5) as ex:
+            list(ex.map(lambda n: run.apalache("SegmentsApa", "CInit%d" % n, "Facts"), [1, 2, 3, 5, 7, 10, 16, 100, 1000]))
+        run.apalache("SegmentsApa", "CInit7", "WrongFact", expect_error=True)
     tr = _t(run, "segments.ndjson")
     info = run.harness("segments", tr)
     v = run.validate("TraceSegments", tr)
